@@ -49,7 +49,18 @@ template<class Graph> struct Run {
     typedef typename boost::property_traits<WMap>::value_type W;
 
     // returns the behaviour after Call as lines
-    static std::vector<std::string> once(Built<Graph> &b, const InGraph &in, const std::string &algo, long k) {
+    template<class It> static bool invoke(const std::string &algo, const Graph &g, WMap &wm, long k, It o, W &ret) {
+        if (algo == "signed_tbb") ret = parmcb::mcb_sva_signed_tbb(g, wm, o);
+        else if (algo == "fvs_tbb") ret = parmcb::mcb_sva_fvs_trees_tbb(g, wm, o);
+        else if (algo == "iso_tbb") ret = parmcb::mcb_sva_iso_trees_tbb(g, wm, o);
+        else if (algo == "approx_signed_tbb") ret = parmcb::approx_mcb_sva_signed_tbb(g, wm, (std::size_t) k, o);
+        else if (algo == "approx_fvs_tbb") ret = parmcb::approx_mcb_sva_fvs_trees_tbb(g, wm, (std::size_t) k, o);
+        else if (algo == "approx_iso_tbb") ret = parmcb::approx_mcb_sva_iso_trees_tbb(g, wm, (std::size_t) k, o);
+        else return false;
+        return true;
+    }
+    // positional: the output iterator points into a pre-sized vector (see h_approx); the caller finds the non-empty slots
+    static std::vector<std::string> once(Built<Graph> &b, const InGraph &in, const std::string &algo, long k, bool positional = false) {
         std::vector<std::string> out;
         WMap wm = boost::get(boost::edge_weight, b.g);
         const Graph &g = b.g;
@@ -57,13 +68,10 @@ template<class Graph> struct Run {
         vtbb::ctl().begin_call();
         try {
             W ret;
-            if (algo == "signed_tbb") ret = parmcb::mcb_sva_signed_tbb(g, wm, std::back_inserter(cycles));
-            else if (algo == "fvs_tbb") ret = parmcb::mcb_sva_fvs_trees_tbb(g, wm, std::back_inserter(cycles));
-            else if (algo == "iso_tbb") ret = parmcb::mcb_sva_iso_trees_tbb(g, wm, std::back_inserter(cycles));
-            else if (algo == "approx_signed_tbb") ret = parmcb::approx_mcb_sva_signed_tbb(g, wm, (std::size_t) k, std::back_inserter(cycles));
-            else if (algo == "approx_fvs_tbb") ret = parmcb::approx_mcb_sva_fvs_trees_tbb(g, wm, (std::size_t) k, std::back_inserter(cycles));
-            else if (algo == "approx_iso_tbb") ret = parmcb::approx_mcb_sva_iso_trees_tbb(g, wm, (std::size_t) k, std::back_inserter(cycles));
-            else { out.push_back(J().s("e", "Crash").s("what", "unknown algo").str()); return out; }
+            std::vector<std::list<Edge>> slots(positional ? in.edges.size() + 8 : 0);
+            bool known = positional ? invoke(algo, g, wm, k, slots.begin(), ret) : invoke(algo, g, wm, k, std::back_inserter(cycles), ret);
+            if (!known) { out.push_back(J().s("e", "Crash").s("what", "unknown algo").str()); return out; }
+            if (positional) for (auto &sl : slots) if (!sl.empty()) cycles.push_back(sl);
             for (auto &cyc : cycles) { std::vector<long> idx; for (auto &e : cyc) idx.push_back(b.idx(e)); out.push_back(J().s("e", "Emit").arr("cyc", idx).str()); }
             long ri, fr; scaled((double) ret, in.den, ri, fr);
             out.push_back(J().s("e", "Return").i("ret", ri).i("frac", fr).i("tol", 0).str());
@@ -99,6 +107,7 @@ template<class Graph> struct Run {
         std::vector<vtbb::RegionInfo> regions = c.regions;
         c.record = false;
         record(base, "unsplit");
+        if (k != 0 || algo.find("approx") == std::string::npos) record(once(b, in, algo, k, true), "unsplit-positional-sink");
         // 2. degenerate families and random schedules over all regions
         for (int d = 0; d < 4; d++) {
             c.mode = 3; c.degenerate = d;
@@ -112,7 +121,7 @@ template<class Graph> struct Run {
             c.mode = 1; c.seed = seed * 1000003ULL + (uint64_t) r * 7919ULL + (uint64_t) in.id;
             // the first random run is also logged region by region (schedule tree with start / result value of every node)
             c.trace_regions = g_footprints && r == 0; c.region_events.clear();
-            record(once(b, in, algo, k), "random" + std::to_string(c.seed));
+            record(once(b, in, algo, k, r % 2 == 1), "random" + std::to_string(c.seed) + (r % 2 == 1 ? "-positional-sink" : ""));
             if (c.trace_regions) for (auto &e : c.region_events) emit(e);
             c.trace_regions = false; c.region_events.clear();
         }
